@@ -71,7 +71,7 @@ def run(ctx):
     sites = list(FAMILY)
     sites += rng.sample(range(512), ctx.pick(6, 24))
     bases = sorted({s * 512 + r for s in sites for r in ROWS})
-    g, _, _ = lc.par(lambda: ctx.tlc("Launch_Gen", cfg="CONSTANTS\n  C04Pairs = {}\n  C07Bases = {%s}\nINIT Init\nNEXT Next\n" % ",".join(map(str, bases)),
+    g, _, _ = lc.par(lambda: ctx.tlc("Launch_Gen", cfg="CONSTANTS\n  C04Pairs = {}\n  C04Seq = {}\n  C07Bases = {%s}\nINIT Init\nNEXT Next\n" % ",".join(map(str, bases)),
                                       timeout=600, count=False),
                      lambda: ctx.build_vdrive("launch"), lambda: lc.build_probe(ctx))     # build while TLC generates
     ctx.tlc_ok("Launch_Gen", g)
